@@ -207,6 +207,11 @@ def cases(size, seed):
     for a in ('2', '3', '10', '0.5', '1.1', '-2', '-3', '9', '1E10', '1.000000000000000000000000000000001', '0'):
         for b in ('0', '1', '2', '3', '10', '-1', '-2', '0.5', '100', '-100', '1000', '20000', '-20000', '0.1'):
             out.append(('pow', Decimal(a), Decimal(b)))
+    # equal values written with different exponents compare equal (and neither below nor above the other)
+    for (a, b) in (('1.00', '1.0'), ('1.0', '1.00'), ('-1.5', '-1.50'), ('-1.50', '-1.5'), ('1E+2', '100'), ('100', '1E+2'), ('100.0', '1E+2'), ('0.0', '0'), ('0', '0E+3'), ('-0', '0'),
+                   ('1E-10', '0.0000000001'), ('5E+33', '5000000000000000000000000000000000'), ('1.10', '1.1'), ('1.1', '1.10'), ('1.10', '1.2'), ('1.2', '1.10'), ('-2.50', '-2.5'), ('-2.5', '-2.50')):
+        for op in ('eq', 'lt', 'le', 'gt', 'ge'):
+            out.append((op, Decimal(a), Decimal(b)))
     # integer exponents stored in reduced form (1E+6: one digit, exponent 6 - what 1000 * 1000 evaluates to) with bases close to 1,
     # where the square-and-multiply loop needs its extra working digits
     for a in ('1.0000001', '0.9999999', '1.000001', '1.00000000001', '1.0001', '0.99999', '-1.0000001', '1.5', '0.75'):
